@@ -270,21 +270,33 @@ Theorem INT_adapter_asserted_session : forall (lower : str -> str) now c pol hos
 Proof. exact asserted_agrees. Qed.
 Print Assumptions INT_adapter_asserted_session.
 
-(* The composite monitor Corr_IntProxy.judge applies to the real proxy's observations (routing by list search,
-   CorrProxy's boolean session clause under the routed upstream's policy and slug, identity headers / cookies /
-   signature verdicts at the backend, C18's hardening clauses, 421, bound sessions) accepts the observation the
-   model itself predicts, for EVERY deployment, request, answers and time satisfying the guards of the composed
-   theorems: C18's monitor guard for the routed upstream, and — when a backend is reached — C12's two guards.
-   So a falsifying observation is a difference between model and implementation or an attributed finding. *)
+(* The composite monitor Corr_IntProxy.judge applies to the real proxy's observations. Its MEDIATION clauses are
+   unguarded: which backend (routing by list search), whitelisted or CorrProxy's boolean session clause under the
+   routed upstream's policy and slug, identity headers at the backend = the asserted session's or — exactly as
+   INT_backend_reached_only_if states — nothing when the Connection header names the header hop-by-hop, absent
+   on a whitelisted request, never the session cookie, 421 for unrouted hosts, bound sessions. The clauses of C12
+   and C18 are applied only under the guards INT_signature_verifies / INT_every_response_hardened are proved
+   under ([applic_of]: ap_sig; [hardening_applies]); outside them a case is judged for model = implementation
+   agreement only and NOTHING is attributed to a known finding (the defects behind those guards are findings of
+   C03 / C12 / C18, not of C01).
+   The monitor accepts the observation the model itself predicts, for EVERY deployment, request, answers and
+   time; the only hypothesis left is C18's residual monitor guard where the hardening clause applies (bytes < 256
+   and a non-empty Host for the redirect shape, no announced trailer named like a protected header).
+   So a falsifying observation is a difference between model and implementation. *)
 Theorem INT_monitor_accepts_model :
   forall (re_match : str -> str -> bool) (re_replace : str -> str -> str -> str) (lower : str -> str)
          (opens : str -> option ProxyCore.session) d q a now,
   guards re_match re_replace lower opens d q a now ->
-  holds re_match re_replace lower opens d q a now (model_obs re_match re_replace lower opens d q a now) = true.
+  holds re_match re_replace lower opens (applic_of q (serve re_match re_replace lower opens d q a now)) d q a now
+        (model_obs re_match re_replace lower opens d q a now) = true.
 Proof. exact monitor_accepts_model. Qed.
 Print Assumptions INT_monitor_accepts_model.
 
+(* the hypothesis is satisfiable, and on that request none of the guarded clauses is skipped *)
 Theorem INT_monitor_guards_satisfiable :
-  guards Ex.ex_match Ex.ex_replace lower_ascii Ex.ex_opens Ex.dep Ex.q_app Ex.quiet 1000%Z.
-Proof. exact guards_satisfiable. Qed.
+  guards Ex.ex_match Ex.ex_replace lower_ascii Ex.ex_opens Ex.dep Ex.q_app Ex.quiet 1000%Z /\
+  ap_sig (applic_of Ex.q_app (Ex.run Ex.q_app)) = true /\
+  (forall k, In k ReqHeaders.identity_keys -> ap_hop (applic_of Ex.q_app (Ex.run Ex.q_app)) k = false) /\
+  hardening_applies Ex.up_app Ex.quiet = true.
+Proof. exact (conj guards_satisfiable clauses_apply_nonvacuous). Qed.
 Print Assumptions INT_monitor_guards_satisfiable.
